@@ -25,7 +25,7 @@ type c10Case struct {
 	Extra  bool           `json:"extra,omitempty"` // two more addressed files (examined before and after f.snap) holding a STALE entry under an id that is live in f.snap
 }
 
-var c10Universe = []string{"TestA - 1", "TestA - 2", "TestA - 10", "TestA/x - 1", "TestB - 1", "Test_1 - 1", "TestA/c_01 - 1", "TestA/c_1 - 1", "FuzzA/seed#0 - 1", "TestA/9 - 10", "TestA/10 - 9"}
+var c10Universe = []string{"TestA - 1", "TestA - 2", "TestA - 10", "TestA/x - 1", "TestB - 1", "Test_1 - 1", "TestA/c_01 - 1", "TestA/c_1 - 1", "FuzzA/seed#0 - 1", "TestA/42 - 10", "TestA/1700000000 - 9"}
 
 var c10Bodies = []string{"a", "", "x\n\ny", "---", "[TestA - 1]", "\n", "/-/-/-/", " ", "b\n", "[TestB - 1]\nz", "\xff", "$1%d", "k:\n[TestQ - 7]\nv", "before\n--- \nafter", "head\n\n[TestA - 1]\ntail", "100% done %s\n%!d(MISSING)", c10Big, c10Long, c10Huge,
 	// bracketed lines that are NOT entry headers (no ` - `, no number, trailing text)
@@ -215,8 +215,12 @@ func c10Run(c *vfCtx, cs c10Case) {
 				}
 			}
 			keep := vfEntry{ID: "TestKeep - 1", Body: "k"}
-			sc.Files = append(sc.Files, vfNamedFile{Name: "a.snap", Entries: append(append([]vfEntry{}, fe...), keep)}, vfNamedFile{Name: "z.snap", Entries: append([]vfEntry{keep}, fe...)})
-			sc.Tests = append(append([]vfTestExec{}, tests...), vfTestExec{Name: "TestKeep", Calls: []vfCall{{API: "snap", Val: "k", File: "a"}, {API: "snap", Val: "k", File: "z"}}})
+			sc.Files = append(sc.Files, vfNamedFile{Name: "a.snap", Entries: append([]vfEntry{keep}, fe...)}, vfNamedFile{Name: "z.snap", Entries: append(append([]vfEntry{}, fe...), keep)})
+			// and one file, examined before all others, whose last entry lost its terminator (a truncated file): whatever Clean makes of
+			// THAT file, nothing of it may end up in the files examined afterwards
+			sc.Files = append(sc.Files, vfNamedFile{Name: "0.snap", Entries: []vfEntry{keep}})
+			sc.Append = map[string]string{"0.snap": "\n[TestTrunc - 1]\nleftover line 1\nleftover line 2\n"}
+			sc.Tests = append(append([]vfTestExec{}, tests...), vfTestExec{Name: "TestKeep", Calls: []vfCall{{API: "snap", Val: "k", File: "0"}, {API: "snap", Val: "k", File: "a"}, {API: "snap", Val: "k", File: "z"}}})
 		}
 		o := vfRunClean(c, sc)
 		c.count("transitions", int64(len(o.callObs)+2))
